@@ -77,13 +77,26 @@ func computeEffects(db *SiteDB) map[*types.Func]*Effects {
 			if tf := l.FuncOf(callee(info, s.Call)); tf != nil && tf.Decl.Body != nil {
 				e.Callees[tf.Obj] = true
 			}
+			// A declared function handed over as an argument may be called by the receiver.
+			for _, a := range s.Call.Args {
+				a = unparen(a)
+				if _, isLit := a.(*ast.FuncLit); isLit {
+					continue
+				}
+				if _, isSig := typeUnder(info, a).(*types.Signature); !isSig {
+					continue
+				}
+				if tf := l.FuncOf(callee(info, &ast.CallExpr{Fun: a})); tf != nil && tf.Decl.Body != nil {
+					e.Callees[tf.Obj] = true
+				}
+			}
 		}
 	}
 	for _, b := range db.Blocking {
 		e := get(b.Root.Obj)
 		if b.Callee == "go" {
 			e.Go = true
-		} else {
+		} else if !b.NonBlocking {
 			e.Blocks[b.Callee] = true
 		}
 	}
@@ -166,4 +179,11 @@ func reachableFuncs(eff map[*types.Func]*Effects, roots []*types.Func) map[*type
 		walk(r)
 	}
 	return seen
+}
+
+func typeUnder(info *types.Info, e ast.Expr) types.Type {
+	if t := info.TypeOf(e); t != nil {
+		return t.Underlying()
+	}
+	return nil
 }
